@@ -508,6 +508,18 @@ func (fr *Frame) builtin(b *ssa.Builtin, c *ssa.CallCommon, st *State, pos token
 		if u.checkFrame {
 			u.oblige(fr, st, "frame", "delete", or(fmt.Sprintf("(= %s nil)", m.T), fmt.Sprintf("(>= (birth %s) %s)", m.T, u.entryNow)), pos, "delete from a map that existed before the call")
 		}
+		for _, a := range u.noDeleteAddrs {
+			if len(a.Sels) > 0 {
+				last := a.Sels[len(a.Sels)-1]
+				if stt, ok := last.cont.Underlying().(*types.Struct); ok && last.field >= 0 && last.field < stt.NumFields() {
+					if !types.Identical(stt.Field(last.field).Type().Underlying(), mt) {
+						continue
+					}
+				}
+			}
+			u.oblige(fr, st, "insertonly", "delete", not(eq(u.loadAddr(st, a), m.T)), pos, "an entry of a protected map whose entries are never deleted is deleted")
+			break
+		}
 		alive := st.clone()
 		u.mapDelete(alive, mt, m.T, k)
 		nilc := fmt.Sprintf("(= %s nil)", m.T)
